@@ -258,3 +258,42 @@ Example grapheme_example :
 Proof.
   cbv zeta. split; [repeat constructor; lia|]. vm_compute. repeat split; reflexivity.
 Qed.
+
+(* ---- C10 for merge tokens: the merge announces the character it changes, after changing it ---- *)
+From Termemu Require Import IsolationProofs NotifyProofs.
+
+Lemma Framed_merge_prev txt : Framed (merge_prev txt).
+Proof.
+  intros s Hs.
+  destruct (Z_le_gt_dec (cx s) 0) as [Hle|Hgt].
+  - assert (E : merge_prev txt s = s).
+    { unfold merge_prev. destruct (negb (crash s =? 0)); [reflexivity|].
+      destruct (Z.leb_spec (cx s) 0); [reflexivity|lia]. }
+    rewrite E. exists []. split; [reflexivity|auto].
+  - pose proof (merge_prev_cells txt s Hs ltac:(lia)) as (Hb & _ & Hother).
+    set (y := cy s) in *. set (b := glyph_start (row_at s y) (cx s - 1)) in *.
+    pose proof (cont_run_range (row_at s y) (b + 1) ltac:(lia)) as Hr.
+    exists [ERegion b y (b + (1 + cont_run (row_at s y) (b + 1))) (y + 1) crText]. split.
+    + unfold merge_prev. rewrite (inv_crash _ Hs). cbn [Z.eqb negb].
+      destruct (Z.leb_spec (cx s) 0); [lia|]. reflexivity.
+    + intros x y' _ _ Hna. apply Hother.
+      destruct (Z.eq_dec x b) as [->|]; [|left; assumption].
+      destruct (Z.eq_dec y' y) as [->|]; [|right; assumption].
+      exfalso. apply Hna. eexists. split; [left; reflexivity|]. cbn [covers]. lia.
+Qed.
+
+(* the announcement is the newest callback and is issued on the state that already holds the merged text *)
+Lemma merge_prev_announces txt s : Inv s -> 0 < cx s ->
+  let b := glyph_start (row_at s (cy s)) (cx s - 1) in
+  evs (merge_prev txt s) = ERegion b (cy s) (b + (1 + cont_run (row_at s (cy s)) (b + 1))) (cy s + 1) crText :: evs s.
+Proof.
+  intros Hs Hx b. unfold merge_prev. rewrite (inv_crash _ Hs). cbn [Z.eqb negb].
+  destruct (Z.leb_spec (cx s) 0); [lia|]. reflexivity.
+Qed.
+
+Theorem gexec_framed k t : TInv t -> (forall k0, k = GT k0 -> ~ is_switch k0) -> TFramed t (gexec k t).
+Proof.
+  intros Ht Hn. destruct k as [k0|txt]; cbn [gexec].
+  - apply exec_tok_framed; [exact Ht|apply Hn; reflexivity].
+  - apply on_screen_tframed; [exact Ht|]. intros s Hs. split; [apply Pres_merge_prev, Hs|apply Framed_merge_prev, Hs].
+Qed.
